@@ -32,7 +32,7 @@ import (
 
 // TODO(gQ1 D17): Min/Max counts across tying shards are order dependent until D17 is fixed; when false only
 // the values of Min/Max are compared with the model.
-const vC28CompareMinMaxCount = false
+const vC28CompareMinMaxCount = true // (lead) D17 is repaired on main
 
 type vC28Kind struct {
 	Type    string // set mutex bool time int
